@@ -21,15 +21,15 @@ var everything = focus{rtfv: true, rtype: true, unpred: true}
 
 // info is what the facets use to classify a case.
 type info struct {
-	pl        *plan
-	call      string // outcome label of Call
-	implRan   bool
-	typeRan   bool
-	short     bool // Call short-circuited to an unknown (dynamic or unknown argument)
-	typedVal  bool // Call returned a value whose type is not the bare dynamic placeholder
-	classes   map[string]bool
-	deepArg   bool // some argument has nesting depth >= 1
-	tail      int  // number of variadic arguments
+	pl       *plan
+	call     string // outcome label of Call
+	implRan  bool
+	typeRan  bool
+	short    bool // Call short-circuited to an unknown (dynamic or unknown argument)
+	typedVal bool // Call returned a value whose type is not the bare dynamic placeholder
+	classes  map[string]bool
+	deepArg  bool // some argument has nesting depth >= 1
+	tail     int  // number of variadic arguments
 }
 
 func validBehaviour(s string, set []string) bool {
